@@ -39,6 +39,11 @@ check("C16", "model_checking",
       "At the return of every call of every explored interleaving the calling process must own no *.lock or *.reftmp entry (unless it holds an open Addition), and at crash-free quiescence the directory must be exactly tables.list plus the tables it names; failed Adds, rejected transactions and compactions that lose lock races are part of the explored space.",
       E1_NOTE, "stateless DFS over all schedules; residue monitor at every idle point and at quiescence", "DESIGN.md 4, 6/C16", "stackmc")
 
+check("C06", "fault_enumeration",
+      "For each victim call kind (Add, auto-compacting Add, two-table Addition+Commit, CompactAll, CompactAll with expiry, partial-range compaction, Clean, Close) x initial stack x hash type, the victim runs the real code and is killed immediately before its k-th filesystem call for EVERY k (descriptor writes and closes included); then a survivor (once as is, once after leftover lock files were removed) opens, scans, adds, scans, compacts, scans, cleans, closes, reopens and scans. Every scan must equal the reference model's state before or after the operation (after, if the call had returned success), survivor reads never fail, survivor writes fail only with ErrLockFailure while a leftover tables.list.lock exists, and the C05 list invariant holds after every mutation. The enumerated object is the crash point, hence fault_enumeration.",
+      "Process crash only (completed calls persist, no cleanup runs); the POSIX directory model of DESIGN.md 4.1; one sequential survivor (concurrent survivors: crash-as-choice scenario of C05). Power loss / torn writes are outside C06 by its own statement.",
+      "exhaustive crash-point enumeration of the real call over the in-memory directory + survivor program against a reference map", "DESIGN.md 4.4, 6/C06", "crashseq")
+
 ALL = [f"C{n:02d}" for n in range(1, 20)]
 NOT_YET = "check not built yet in this working session (design in DESIGN.md section 6); will be claimed once it runs"
 
@@ -55,6 +60,8 @@ manifest = {
     "engines": [
         {"name": "stackmc", "path": "harness/stackmc", "serves_properties": ["C04", "C05", "C08", "C10", "C16"],
          "kind_free_text": "engine E1: in-memory directory + cooperative scheduler owning every filesystem call + deviation-bounded stateless DFS with state cache over the real stack code"},
+        {"name": "crashseq", "path": "harness/crashseq", "serves_properties": ["C06"],
+         "kind_free_text": "engine E1 in sequential mode: every filesystem-call boundary of a call is a crash point; survivor program on the real code"},
     ],
     "checks": [CHECKS[p] for p in ALL if p in CHECKS],
     "not_applicable": [{"property_id": p, "reason": NOT_YET} for p in ALL if p not in CHECKS],
